@@ -496,6 +496,15 @@ func (c *Client) completeCommand(cmd command, err error) {
 				PermanentFlags: cmd.data.PermanentFlags,
 			}
 			c.mutex.Unlock()
+		} else if imapErr, ok := err.(*imap.Error); ok && imapErr.Type == imap.StatusResponseTypeNo {
+			// A SELECT which fails leaves no mailbox selected, see RFC 9051
+			// section 6.3.2 (BAD means the command hasn't been executed)
+			c.mutex.Lock()
+			if c.state == imap.ConnStateSelected {
+				c.state = imap.ConnStateAuthenticated
+				c.mailbox = nil
+			}
+			c.mutex.Unlock()
 		}
 	case *unselectCommand:
 		if err == nil {
